@@ -36,6 +36,8 @@ var c07Mutants = []Mutant{
 		Edits: []Edit{{File: "channel/channel.go", Old: "return c.t.Close(true)", New: "return c.t.Close(false)"}}},
 	{ID: "C07-close-always-locks", Desc: "Transport.Close always takes the read lock", Rule: "C07/close-reaches-transport",
 		Edits: []Edit{{File: "transport/transport.go", Old: "\tif !force {\n\t\tt.implLock.Lock()\n\t\tdefer t.implLock.Unlock()\n\t}\n", New: "\t_ = force\n\n\tt.implLock.Lock()\n\tdefer t.implLock.Unlock()\n"}}},
+	{ID: "C07-standard-close-early-return", Desc: "Standard.Close returns the session close error before closing the client", Rule: "C07/impl-close-all",
+		Edits: []Edit{{File: "transport/standard.go", Old: "\t\tif err != nil && !errors.Is(err, io.EOF) {\n\t\t\tsessionErr = err\n\t\t}", New: "\t\tif err != nil && !errors.Is(err, io.EOF) {\n\t\t\treturn err\n\t\t}"}}},
 	{ID: "C07-close-skips-transport", Desc: "Channel.Close returns early when the reader already exited", Rule: "C07/close-reaches-transport",
 		Edits: []Edit{{File: "channel/channel.go", Old: "\t} else {\n\t\tclose(ch)\n\t}\n", New: "\t} else {\n\t\tclose(ch)\n\n\t\treturn nil\n\t}\n"}}},
 	{ID: "C07-new-shared-counter", Desc: "reader counts bytes in a plain field read by an API method", Rule: "C07/L",
